@@ -29,7 +29,13 @@ def swap(module, name, standin):
     if hlib.CONCRETE:
         yield
         return
-    real = getattr(module, name)
+    # (a tree under test may no longer bind the name at module level: then there is nothing to
+    # stand in for, and the code runs with whatever it binds itself)
+    missing = object()
+    real = getattr(module, name, missing)
+    if real is missing:
+        yield
+        return
     setattr(module, name, standin)
     try:
         yield
